@@ -10,7 +10,7 @@ from common import driver, proof_stage
 import subgen
 from c15 import run_calls, stats
 
-MODULES = ["CobyqaVerif.Props.C16", "CobyqaVerif.Props.C15Loop", "CobyqaVerif.Props.C16Cauchy"]
+MODULES = ["CobyqaVerif.Props.C16", "CobyqaVerif.Props.C15Loop", "CobyqaVerif.Props.C16Cauchy", "CobyqaVerif.Props.C16Spider"]
 LEVEL = "proof"
 OWN = ("model-increased", "violation-increased", "magnitude-decreased")
 EPS = subgen.EPS
@@ -167,6 +167,49 @@ def cauchy_correspondence(rng, n_gen):
     return {"cases_with_the_corner_inside_the_ball": len(cases), "agree": agree, "mismatches": len(mism)}, mism
 
 
+def spider_correspondence(rng, n_gen):
+    """Tie of lean/CobyqaVerif/Alg/Spider.lean (the whole of spider_geometry) to the code: the model, run in exact rational
+    arithmetic on the same data, lines and (rounded-up) norms, must return the step of the real spider_geometry; when two
+    candidates tie in |q| either is accepted."""
+    import math
+    import warnings
+    import exact
+    import cobyqa.subsolvers as S
+    lines, cases = [], []
+    for _ in range(n_gen):
+        c = subgen.gen(rng, "spider")
+        xl, xu = np.minimum(c["xl"], 0.0), np.maximum(c["xu"], 0.0)
+        X = c["xpt"]
+        p = X.shape[1]
+
+        def rl(v):
+            return " ".join(exact.rs(Fr(float(x))) for x in np.atleast_1d(v))
+
+        def ol(v):
+            return " ".join("none" if not np.isfinite(x) else exact.rs(Fr(float(x))) for x in v)
+        sn = [Fr(math.sqrt(float(X[:, k] @ X[:, k]))) * (1 + Fr(1, 2 ** 48)) for k in range(p)]
+        lines.append(f"spider {c['n']} {p} | {rl(c['const'])} ; {rl(c['g'])} ; {rl(c['H'].ravel())} ; {ol(xl)} ; {ol(xu)} ; {rl(c['delta'])} ; "
+                     f"{rl(X.T.ravel())} ; {' '.join(exact.rs(v) for v in sn)}")
+        cases.append(c)
+    ans = exact.driver_alg(lines) if lines else []
+    agree, mism = 0, []
+    for c, a in zip(cases, ans):
+        with warnings.catch_warnings(), np.errstate(all="ignore"):
+            warnings.simplefilter("ignore")
+            s = S.spider_geometry(c["const"], c["g"], lambda v: float(v @ c["H"] @ v), c["xpt"], c["xl"].copy(), c["xu"].copy(), c["delta"], False)
+        if not a.startswith("ok"):
+            mism.append((c, "driver answered " + a[:40]))
+            continue
+        m = np.array([float(Fr(t)) for t in a.split()[1:]])
+        sc = max(float(np.linalg.norm(s)), float(np.linalg.norm(m)), 1e-300)
+        q = lambda v: abs(c["const"] + float(c["g"] @ v) + 0.5 * float(v @ c["H"] @ v))  # noqa
+        if float(np.linalg.norm(m - s)) <= 1e-9 * sc or abs(q(m) - q(s)) <= 1e-9 * max(q(m), q(s), 1e-300):
+            agree += 1
+        else:
+            mism.append((c, f"exact model step {m.tolist()} vs implementation {np.asarray(s).tolist()}"))
+    return {"cases": len(cases), "agree": agree, "mismatches": len(mism)}, mism
+
+
 def run(chk, rng, replay=None):
     ok, info = proof_stage(chk, MODULES)
     cases, out, ans, crashed = run_calls(chk, rng, replay, 2500, 100000)
@@ -223,6 +266,9 @@ def run(chk, rng, replay=None):
     })
     cstat, cmism = cauchy_correspondence(rng, 400 if chk.tier == "quick" else 8000) if replay is None else ({}, [])
     chk.coverage["cauchy_geometry_model_correspondence"] = cstat
+    sstat, smism = spider_correspondence(rng, 200 if chk.tier == "quick" else 4000) if replay is None else ({}, [])
+    chk.coverage["spider_geometry_model_correspondence"] = sstat
+    cmism = cmism + smism
     chk.assumptions += ["kernel theorems are exact-arithmetic; the loops of the solvers are covered by the sampled calls only",
                         "the projected-gradient Cauchy reference is computed by the harness (exact rational model values, step shortened by 1e-9 to stay feasible)"]
     reported = 0
@@ -236,7 +282,7 @@ def run(chk, rng, replay=None):
         reported += len(chk.violations) - before
     if not fails and cmism:
         c, what = cmism[0]
-        chk.violation({"property": "C16", "kind": "proof-or-correspondence-broken", "correspondence": "Alg/Cauchy.lean (exact) vs cauchy_geometry",
+        chk.violation({"property": "C16", "kind": "proof-or-correspondence-broken", "correspondence": "Alg/Cauchy.lean / Alg/Spider.lean (exact) vs cauchy_geometry / spider_geometry",
                        "case": subgen.case_json(c), "difference": what, "mismatches": len(cmism)}, no_input=True)
     if not fails and not ok:
         chk.violation({"property": "C16", "kind": "proof-or-correspondence-broken", "broken": info.get("problems")}, no_input=True)
